@@ -294,6 +294,61 @@ func liftToCallers(p *ana.Prog, ts *ana.TaintState, o boundObl, proverOf func(*s
 			open = append(open, g)
 		}
 	}
+	// a goal that mentions values local to the callee (a loop index, ...) cannot be stated at a call
+	// site; a dominating fact of the callee that cancels the local part leaves a residual over the
+	// parameters which implies the goal: goal = residual + k*fact with fact >= 0, k > 0
+	if depth == 0 {
+		liftable := func(a string) bool {
+			inner := a
+			for _, w := range []string{"len(", "cap("} {
+				if strings.HasPrefix(a, w) && strings.HasSuffix(a, ")") {
+					inner = a[len(w) : len(a)-1]
+				}
+			}
+			for _, prm := range callee.Params {
+				if inner == prm.Name() || strings.HasPrefix(inner, prm.Name()+".") {
+					return true
+				}
+			}
+			return false
+		}
+		allLiftable := func(l ana.ILin) bool {
+			for a := range l.Coef {
+				if !liftable(a) {
+					return false
+				}
+			}
+			return true
+		}
+		for gi, g := range open {
+			if allLiftable(g) {
+				continue
+			}
+			for _, f := range cpr.GuardFacts(o.in) {
+				k := int64(0)
+				okK := true
+				for a, ga := range g.Coef {
+					if liftable(a) {
+						continue
+					}
+					fa := f.Coef[a]
+					if fa == 0 || ga%fa != 0 || ga/fa <= 0 || (k != 0 && ga/fa != k) {
+						okK = false
+						break
+					}
+					k = ga / fa
+				}
+				if !okK || k == 0 {
+					continue
+				}
+				res := g.Add(f, -k)
+				if allLiftable(res) {
+					open[gi] = res
+					break
+				}
+			}
+		}
+	}
 	sites := 0
 	how := map[string]int{}
 	for _, caller := range ts.Reachable() {
